@@ -210,7 +210,7 @@ def flush(res, model, cfg_name, cfg, batch):
             continue
         unamb = unambiguous(cfg, name, spans)
         if bk in spec:
-            wf, pn_ok, items_ok, unamb_m, sres = spec[bk]
+            wf, pn_ok, items_ok, unamb_m, ice, sres = spec[bk]
             if (unamb_m == "1") != unamb:
                 res.corr_disagreements += 1
                 res.violation("correspondence", f"premise `unambiguous` of name_roundtrip on {name!r} under {cfg_name}: model {unamb_m}, harness {unamb}", case)
@@ -224,6 +224,13 @@ def flush(res, model, cfg_name, cfg, batch):
                 if not agree:
                     res.corr_disagreements += 1
                     res.violation("correspondence", f"C08.name_roundtrip instance: Species({name!r}) under {cfg_name} gives {i[:5]}, the item fold gives {sres}", case)
+                # C08.ice_species_counterpart: phase, group and gas-phase counterpart of an ice species
+                if ice != "none" and ice[0] == "1" and i[0] == "ok":
+                    res.count("theorem-instance(ice_species_counterpart premises hold)")
+                    if i[3] != int(ice[1]) or i[7] != ice[2]:
+                        res.corr_disagreements += 1
+                        res.violation("correspondence", f"C08.ice_species_counterpart instance: Species({name!r}) under {cfg_name} has surface group {i[3]} and gas "
+                                                        f"name {i[7]!r}, the theorem gives group {ice[1]} and {ice[2]!r}", case)
             else:
                 res.count(f"theorem-premise-fails(wf={wf},name={pn_ok},items={items_ok},unambiguous={unamb_m})")
         if not unamb:
